@@ -11,7 +11,7 @@ from hypothesis import strategies as st
 
 from pbt import exprs as X
 from pbt import ieee
-from pbt.grammar import (ENC_UNIT, FF_INT, INT_ALIAS_WIDTHS, SCOPED, buildnone, children, fixed_size, is_expr, walk)
+from pbt.grammar import (ENC_UNIT, FF_INT, INT_ALIAS_WIDTHS, SCOPED, buildnone, children, enum_table, fixed_size, is_expr, walk)
 from pbt.refmodel import nested_scope, top_scope
 
 ENCODINGS = ["ascii", "utf8", "utf_16_le", "utf_16_be", "utf_32_le", "utf_32_be"]
@@ -36,7 +36,7 @@ class Free:
 CORE = frozenset("""int float varint zigzag bytes gbytes pstr pascal cstr gstr flag enum flagsenum mapping const computed
  pass padding struct seq fseq array grange parray if ite switch rebuild default prefixed fixedsized padded aligned
  nullterm nullstrip check""".split())
-SEQUENTIAL = CORE | frozenset("""docs expr bint lamlen lazybound offsettedend runtil select optional stopif bitwise bitstruct bytewise byteswapped bitsswapped xor rol
+SEQUENTIAL = CORE | frozenset("""docs expr bint bittail lamlen lazybound offsettedend runtil select optional stopif bitwise bitstruct bytewise byteswapped bitsswapped xor rol
  compressed hex hexdump oneof noneof alignedstruct bomstr index terminated""".split())
 
 
@@ -233,7 +233,12 @@ def gen_mapped(draw, g, kind):
         return ["flagsenum", s, [[l, m] for l, m in zip(labels, masks)], via]
     vals = draw(st.lists(st.integers(0, min(hi, 300)), min_size=1, max_size=4, unique=True))
     if kind == "enum":
-        return ["enum", s, [[l, v] for l, v in zip(LABELS, vals)], draw(st.sampled_from(["kw", "intenum"]))]
+        table = [[l, v] for l, v in zip(LABELS, vals)]
+        if len(table) < len(LABELS) and draw(st.integers(0, 3)) == 0:
+            # aliases: another label for an already declared value, placed anywhere after it
+            for _ in range(draw(st.integers(1, min(2, len(LABELS) - len(table))))):
+                table.insert(draw(st.integers(1, len(table))), [LABELS[len(table)], draw(st.sampled_from(vals))])
+        return ["enum", s, table, draw(st.sampled_from(["kw", "intenum"]))]
     if kind == "mapping":
         objs = draw(st.sampled_from([["x", "y", "z", "w"], [10, 20, 30, 40], [b"p", b"q", b"r", b"s"], [True, None, "t", 0]]))
         return ["mapping", s, [[o, v] for o, v in zip(objs, vals)]]
@@ -246,11 +251,13 @@ def gen_region_inner(draw, g):
 
 
 def gen_tail_leaf(draw, g):
-    opts = [o for o in ["gbytes", "gbytes", "gstr", "grange", "optional", "nullstrip", "xor", "rol", "compressed", "terminated"]
-            if g.has(o)]
+    opts = [o for o in ["gbytes", "gbytes", "gstr", "grange", "optional", "nullstrip", "xor", "rol", "compressed", "terminated", "bittail"]
+            if g.has(o) and not (o == "bittail" and g.bit)]
     if not opts:
         return None
     o = draw(st.sampled_from(opts))
+    if o == "bittail":
+        return gen_bitstruct(draw, g, tail=True)
     if o == "gbytes":
         return ["gbytes"]
     if o == "gstr":
@@ -260,7 +267,7 @@ def gen_tail_leaf(draw, g):
     if o == "optional":
         return ["optional", draw(st.sampled_from([gen_int(draw), ["cstr", "utf8"], ["pascal", ["int", 1, False, "b", "alias"], "utf8"]]))]
     if o == "nullstrip":
-        return ["nullstrip", ["gbytes"], draw(st.sampled_from([b"\x00", b"\xff", b"\x00\x00", b"ab"]))]
+        return ["nullstrip", ["gbytes"], draw(st.sampled_from([b"\x00", b"\xff", b"\x00\x00", b"ab", b"ab", b"\x20\x00", b"xyz"]))]
     if o == "xor":
         key = draw(st.one_of(st.integers(0, 255), st.binary(min_size=1, max_size=3)))
         return ["xor", key, gen_spec(draw, g.child(tail=True, depth=min(g.depth - 1, 1)))]
@@ -596,7 +603,11 @@ def gen_wrapper(draw, g):
             return ["nullterm", ["gbytes"], term, draw(st.booleans()), draw(st.booleans()), draw(st.booleans())]
         return ["nullterm", ["gbytes"], term, False, True, True]
     if o == "parray":
-        return ["parray", gen_lenfield(draw), gen_element(draw, g.child(tail=False))]
+        eg = g.child(tail=False)
+        eg.ints = [(l + 1, n, k) for l, n, k in g.ints]     # the FocusedSeq behind PrefixedArray is one more context level
+        if not g.scope_depth:
+            eg.rootrefs = False     # PrefixedArray is a FocusedSeq: at the top it, not the element Struct, owns _root
+        return ["parray", gen_lenfield(draw), gen_element(draw, eg)]
     if o == "array":
         return ["array", gen_len_expr(draw, g), gen_element(draw, g.child(tail=False)), draw(st.sampled_from(["ctor", "getitem"]))]
     if o == "runtil":
@@ -623,6 +634,13 @@ def gen_wrapper(draw, g):
         return gen_bitstruct(draw, g)
     if o in ("byteswapped", "bitsswapped"):
         sub = gen_spec(draw, g.child(tail=False, depth=min(g.depth - 1, 1), ctxfree=True, ints=[]))
+        if fixed_size(sub) is None and o == "bitsswapped" and draw(st.booleans()):
+            # BitsSwapped over something that finds its own end: the byte-by-byte (streaming) implementation
+            B1 = ["int", 1, False, "b", "alias"]
+            return [o, draw(st.sampled_from([["varint"], ["cstr", "utf8"], ["pascal", B1, "utf8"], ["prefixed", B1, ["gbytes"], False],
+                                             ["struct", [[g.fresh(), ["varint"]], [g.fresh(), gen_int(draw, maxbytes=2)]]]]))]
+        if fixed_size(sub) == 0 and draw(st.booleans()):
+            return [o, draw(st.sampled_from([["bytes", 0], ["struct", []], ["array", 0, ["int", 1, False, "b", "alias"]], ["pass"]]))]   # a transformed region of no bytes
         if fixed_size(sub) is None or fixed_size(sub) == 0:
             sub = gen_int(draw)
         return [o, sub]
@@ -638,8 +656,10 @@ def gen_wrapper(draw, g):
     raise AssertionError(o)
 
 
-def gen_bitstruct(draw, g):
+def gen_bitstruct(draw, g, tail=False):
     n = draw(st.integers(1, 5))
+    if not tail and draw(st.integers(0, 15)) == 0:
+        n = 0       # a bit-level region of no bits at all (or of the keyword-sized pair only)
     members = []
     total = 0
     if g.params and not g.ctxfree and draw(st.booleans()):
@@ -667,6 +687,11 @@ def gen_bitstruct(draw, g):
             members.append([g.fresh("b"), [a]])
             total += {"bit": 1, "nibble": 4, "octet": 8}[a]
         elif o == "bytewise" and g.has("bytewise"):
+            if g.params and not g.ctxfree and draw(st.integers(0, 2)) == 0:
+                # an island whose byte length comes from a keyword parameter: whole bytes, so the region stays aligned
+                pn = draw(st.sampled_from(sorted(g.params)))
+                members.append([g.fresh("b"), ["bytewise", ["bytes", ["this", ["_params", pn], "attr"]]]])
+                continue
             sub = draw(st.sampled_from([gen_int(draw, maxbytes=3), ["bytes", draw(st.integers(1, 3))]]))
             members.append([g.fresh("b"), ["bytewise", sub]])
             total += 8 * fixed_size(sub)
@@ -674,7 +699,10 @@ def gen_bitstruct(draw, g):
             w, c = draw(st.integers(1, 6)), draw(st.integers(0, 4))
             members.append([g.fresh("b"), ["array", c, ["bits", w, False, False]]])
             total += w * c
-    if total % 8:
+    if tail or (g.tail and g.has("bittail") and draw(st.integers(0, 3)) == 0):
+        # a streaming region: its last member takes every remaining bit (fields before it may end inside a byte)
+        members.append([g.fresh("b"), ["bittail", -total % 8]])
+    elif total % 8:
         members.append([None, ["padding", -total % 8, b"\x00"]])
     if draw(st.booleans()):
         return ["bitstruct", members]
@@ -822,7 +850,7 @@ def gen_value(draw, spec, sc, vp=None):
     if k == "flag":
         return draw(st.booleans())
     if k == "enum":
-        table = spec[2]
+        table = enum_table(spec)
         form = draw(st.sampled_from(["label", "label", "int", "unmapped"]))
         if form == "label":
             return draw(st.sampled_from([l for l, _ in table]))
@@ -869,6 +897,10 @@ def gen_value(draw, spec, sc, vp=None):
             if v not in spec[2]:
                 return v
         return max(spec[2]) + 1
+    if k == "bittail":
+        # the remaining bits of a streaming bit-level region: spec[1] bits complete the last byte, then whole bytes
+        n = spec[1] + 8 * draw(st.integers(0, 2))
+        return bytes(draw(st.lists(st.integers(0, 1), min_size=n, max_size=n)))
     if k in ("bits", "bit", "nibble", "octet"):
         w = {"bit": 1, "nibble": 4, "octet": 8}.get(k) or ev_len(spec[1], sc) or 1
         signed = spec[2] if k == "bits" else False
@@ -1087,8 +1119,8 @@ def _gen_members(draw, members, sc, vp):
             v = draw(st.integers(0, 5))
             s2[name] = v
         elif used and sub[0] == "enum":
-            labels = [l for l, _ in sub[2]]
-            v = draw(st.sampled_from(labels + labels + [max(vv for _, vv in sub[2]) + 1]))
+            labels = [l for l, _ in enum_table(sub)]
+            v = draw(st.sampled_from(labels + labels + [max(vv for _, vv in enum_table(sub)) + 1]))
             s2[name] = v
         else:
             v = gen_value(draw, sub, s2, mvp)
